@@ -333,9 +333,11 @@ func (f *Frame) shape(li *loopInfo) {
 		return
 	}
 	exit := h.Succs[1]
-	if len(exit.Preds) != 1 {
-		fail("the block after the loop is also reached by a break")
-		return
+	for _, pr := range exit.Preds {
+		if pr != h && li.blocks[pr] {
+			fail("the block after the loop is also reached by a break")
+			return
+		}
 	}
 	var phi *ssa.Phi
 	plusOne := false
@@ -610,7 +612,8 @@ func (f *Frame) evalBinOp(x *ssa.BinOp) Val {
 	if !ok {
 		return TopV{} // comparisons
 	}
-	if basicBits(bt) < 64 && !(a.L.IsConst() && b.L.IsConst()) {
+	wraps := x.Op == token.ADD || x.Op == token.SUB || x.Op == token.MUL || x.Op == token.SHL || (x.Op == token.QUO && bt.Info()&types.IsUnsigned == 0)
+	if basicBits(bt) < 64 && wraps && !(a.L.IsConst() && b.L.IsConst()) {
 		// fixed-width arithmetic below the word size may wrap: kept uninterpreted
 		return IntV{AtomLin(Op{x.Op.String() + ":" + bt.Name(), []Lin{a.L, b.L}})}
 	}
@@ -762,15 +765,19 @@ func (f *Frame) evalPhi(phi *ssa.Phi) Val {
 	li := f.byHead[b]
 	if li == nil {
 		var out Val
+		same := true
 		for i, e := range phi.Edges {
 			v := f.eval(e)
 			if i == 0 {
 				out = v
 			} else if valKey(out) != valKey(v) {
-				return TopV{}
+				same = false
 			}
 		}
-		return out
+		if same {
+			return out
+		}
+		return f.iteOf(phi)
 	}
 	f.shape(li)
 	if !li.ok {
@@ -791,6 +798,67 @@ func (f *Frame) evalPhi(phi *ssa.Phi) Val {
 		return SliceV{Len: AtomLin(Acc{phi})}
 	}
 	return TopV{}
+}
+
+// iteOf: a two-way merge of integers controlled by a comparison of symbolic integers.
+func (f *Frame) iteOf(phi *ssa.Phi) Val {
+	b := phi.Block()
+	if len(phi.Edges) != 2 {
+		return TopV{}
+	}
+	if _, ok := intType(phi.Type()); !ok {
+		return TopV{}
+	}
+	d := b.Idom()
+	if d == nil || len(d.Instrs) == 0 {
+		return TopV{}
+	}
+	iff, ok := d.Instrs[len(d.Instrs)-1].(*ssa.If)
+	if !ok {
+		return TopV{}
+	}
+	cmp, ok := iff.Cond.(*ssa.BinOp)
+	if !ok {
+		return TopV{}
+	}
+	switch cmp.Op {
+	case token.EQL, token.NEQ, token.LSS, token.LEQ, token.GTR, token.GEQ:
+	default:
+		return TopV{}
+	}
+	x, ok1 := f.eval(cmp.X).(IntV)
+	y, ok2 := f.eval(cmp.Y).(IntV)
+	if !ok1 || !ok2 {
+		return TopV{}
+	}
+	t, e := d.Succs[0], d.Succs[1]
+	side := func(p *ssa.BasicBlock) int {
+		switch {
+		case p == d && t == b:
+			return 0
+		case p == d && e == b:
+			return 1
+		case t != b && t.Dominates(p):
+			return 0
+		case e != b && e.Dominates(p):
+			return 1
+		}
+		return -1
+	}
+	s0, s1 := side(b.Preds[0]), side(b.Preds[1])
+	if s0 < 0 || s1 < 0 || s0 == s1 {
+		return TopV{}
+	}
+	v0, okA := f.eval(phi.Edges[0]).(IntV)
+	v1, okB := f.eval(phi.Edges[1]).(IntV)
+	if !okA || !okB {
+		return TopV{}
+	}
+	then, els := v0.L, v1.L
+	if s0 == 1 {
+		then, els = v1.L, v0.L
+	}
+	return IntV{AtomLin(Ite{cmp.Op.String(), x.L, y.L, then, els})}
 }
 
 func linOf(v Val) (Lin, bool) {
@@ -855,9 +923,7 @@ func (f *Frame) solve(phi *ssa.Phi) (Lin, bool) {
 		return fail()
 	}
 	res := *init
-	if !(delta.IsConst() && delta.C == 0) {
-		res = res.Add(AtomLin(Prefix{li.id, *delta}))
-	}
+	res = res.Add(mkPrefix(li.id, *delta))
 	f.sol[phi] = IntV{res}
 	return res, true
 }
@@ -904,6 +970,37 @@ func (f *Frame) resolve(v Val) Val {
 	return v
 }
 
+// mkPrefix / mkSum build Σ terms in normal form: the part of the body that does not depend on the
+// bound index is multiplied out (Σ_{j<n} (c + v(j)) = c*n + Σ_{j<n} v(j)), so that a closed form and a
+// loop have the same key.
+func splitBody(body Lin, id int) (constPart int64, rest Lin) {
+	rest = Const(0)
+	constPart = body.C
+	for _, k := range body.sorted() {
+		t := body.T[k]
+		rest = rest.Add(AtomLin(t.A).Scale(t.K))
+	}
+	return
+}
+
+func mkPrefix(id int, body Lin) Lin {
+	c, rest := splitBody(body, id)
+	out := AtomLin(Idx{id}).Scale(c)
+	if len(rest.T) > 0 {
+		out = out.Add(AtomLin(Prefix{id, rest}))
+	}
+	return out
+}
+
+func mkSum(count Lin, id int, body Lin) Lin {
+	c, rest := splitBody(body, id)
+	out := count.Scale(c)
+	if len(rest.T) > 0 {
+		out = out.Add(AtomLin(Sum{count, id, rest}))
+	}
+	return out
+}
+
 // exitLin rewrites l for a program point after the normal exit of loop li: a prefix sum over the
 // loop becomes the full sum; any other dependency on the loop's index makes the value unknown.
 func exitLin(l Lin, li *loopInfo) (Lin, bool) {
@@ -915,9 +1012,15 @@ func exitLin(l Lin, li *loopInfo) (Lin, bool) {
 			t := l.T[k]
 			var repl Lin
 			switch x := t.A.(type) {
+			case Idx:
+				if x.ID == li.id {
+					repl = li.count // after the normal exit the index equals the trip count
+				} else {
+					repl = AtomLin(x)
+				}
 			case Prefix:
 				if x.ID == li.id {
-					repl = AtomLin(Sum{li.count, li.id, x.Body})
+					repl = mkSum(li.count, li.id, x.Body)
 				} else {
 					repl = AtomLin(Prefix{x.ID, rec(x.Body)})
 				}
@@ -942,6 +1045,8 @@ func exitLin(l Lin, li *loopInfo) (Lin, bool) {
 					}
 				}
 				repl = AtomLin(App{x.Fn, x.Res, args})
+			case Ite:
+				repl = AtomLin(Ite{x.Op, rec(x.X), rec(x.Y), rec(x.Then), rec(x.Else)})
 			default:
 				repl = AtomLin(t.A)
 			}
